@@ -456,6 +456,14 @@ def fam_eth_single(rng, thorough):
                         n=rng.choice([0, 1, 2, 55, 56, 57, 300, 301]), seed=7))
         ops.append(dict(op='inject', nic=p[1], kind='tcp', src=p[0], dst=dst, smac=p[2], sport=999, dport=rng.choice([1, 81]), flags=rng.choice(['S', 'A', 'PA']),
                         seqhi=1, seqlo=1, ackhi=2, acklo=2, n=0))
+    # MULTI-VIEW payloads: the fd-based endpoint reads a frame into views of 128, 256, 512, 1024... bytes, and an
+    # ICMPv6 echo reply carries the request's views as its payload: requests whose frame spills into the 2nd, 3rd
+    # and 4th view (62 + n bytes) must come back whole (ICMPv4 flattens, sent alongside for symmetry)
+    mtu = h['nics'][0]['mtu']
+    for n in [67, rng.choice([68, 200, 301]), 323, rng.choice([400, 513]), min(835, mtu - 48), mtu - 48 - rng.choice([0, 1])]:
+        ops.append(dict(op='inject', nic=1, kind='echo', src='fd00::9', dst=rng.choice(OWN6[1]), smac=PEER1, ident=rng.randrange(65536), seq=n, n=n, seed=n))
+    for n in [87, 343, mtu - 28]:
+        ops.append(dict(op='inject', nic=1, kind='echo', src='10.0.0.9', dst=rng.choice(OWN4[1]), smac=PEER1, ident=rng.randrange(65536), seq=n, n=n, seed=n))
     ops.append(dict(op='inject', nic=1, kind='arp', arpop=1, sha=PEER1, spa='10.0.0.9', tpa='10.0.0.2', smac=PEER1))
     ops.append(dict(op='inject', nic=1, kind='ns', src='fd00::9', target='fd00::1', smac=PEER1))
     ops.append(dict(op='settle', ms=15))
@@ -760,7 +768,7 @@ def gen_scenarios(ctx, budget_frames):
             (fam_tcp_passive(rng, th, combos[0:4]), 50), (fam_tcp_passive(rng, th, combos[4:8]), 50),
             (fam_tcp_active(rng, th, combos[8:12]), 50), (fam_tcp_active(rng, th, combos[12:16]), 50),
             (fam_tcp_passive(rng, th, combos[8:12] + combos[12:14], sack=k % 2 == 1), 60), (fam_tcp_active(rng, th, combos[0:4], sack=False), 50),
-            (fam_offload(rng, th), 9), (fam_eth_single(rng, th), 17), (fam_resolve(rng, th, 'eth'), 10),
+            (fam_offload(rng, th), 9), (fam_eth_single(rng, th), 26), (fam_resolve(rng, th, 'eth'), 10),
             (fam_pair(rng, th, kind='ip', v=4, mtu=[68, 576, 1500][k % 3]), 60), (fam_pair(rng, th, kind='ip', v=6), 40),
             (fam_pair(rng, th, kind='eth', v=rng.choice([4, 6])), 45), (fam_pair(rng, th), 45),
             (fam_gateway(rng, th, 'ip'), 40), (fam_gateway(rng, th, 'eth'), 36), (fam_dense(rng, th), 95), (fam_mapped(rng, th), 40), (fam_jumbo(rng, th, k), 12),
